@@ -198,7 +198,10 @@ def main(argv, here):
         pool = None
     else:
         ctx = mp.get_context("fork")
-        pool = ctx.Pool(nworkers)
+        # FRESH_PROCESS_PER_UNIT (driver opt-in): every work unit runs in its own forked child, so state that the code under
+        # test accumulates at module level (a memo that degrades as it grows, a cache) cannot leak from one unit into the
+        # next or slow the later units down; the unit then starts from exactly the state its history replay starts from
+        pool = ctx.Pool(nworkers, maxtasksperchild=1 if getattr(drv, "FRESH_PROCESS_PER_UNIT", False) else None)
         it = pool.imap_unordered(_worker, tasks, chunksize=1)
     unit_walls = []
     # watchdog: a unit that never returns (a changed tree can make real code wait for ever) must end the run with a
